@@ -246,6 +246,29 @@ func (p *Path) subRope(s StrV, lo, hi *smt.Term, site ssa.Instruction) StrV {
 		}
 		return normStr(StrV{A: []Atom{{Kind: AView, Arr: a.Arr, Off: smt.Add(a.Off, lo), Len: ln, Max: mx, Prov: nil}}})
 	}
+	// cut points that coincide (syntactically) with atom boundaries
+	if _, isC := lo.Int64(); !isC || true {
+		cum := smt.Int(0)
+		loIdx, hiIdx := -1, -1
+		if c, ok := lo.Int64(); ok && c == 0 {
+			loIdx = 0
+		}
+		for i, a := range s.A {
+			if loIdx < 0 && smt.Same(cum, lo) {
+				loIdx = i
+			}
+			cum = smt.Add(cum, a.LenTerm())
+			if smt.Same(cum, hi) {
+				hiIdx = i + 1
+			}
+		}
+		if loIdx < 0 && smt.Same(cum, lo) {
+			loIdx = len(s.A)
+		}
+		if loIdx >= 0 && hiIdx >= loIdx {
+			return normStr(StrV{A: append([]Atom{}, s.A[loIdx:hiIdx]...)})
+		}
+	}
 	// multi-atom: walk atoms; an atom with concrete start can be cut symbolically
 	// only if it is the single atom touched; otherwise need concrete cut points.
 	lc, lok := lo.Int64()
